@@ -455,7 +455,12 @@ func runC18(c *Ctx) {
 					if s1 {
 						R.Check(fromCb(rp.Results[0], "0") && rp.Results[1].IsConst("nil") || fromCb(rp.Results[1], "1"), "R18.3", "cache.GetWithExpiration#miss-returns[ok]", rp.Ret.Pos(), fn, "a successful miss returns the callback's value", "after a successful callback the function returns "+rp.Results[0].String()+", not the callback's value")
 					} else {
-						R.Check(!rp.Results[1].IsConst("nil") && fromCb(rp.Results[1], "1"), "R18.3", "cache.GetWithExpiration#miss-returns[failed]", rp.Ret.Pos(), fn, "a failed miss returns the callback's error", "after a failed callback the function returns ("+rp.Results[0].String()+", "+rp.Results[1].String()+"): the failure is replaced by a substitute answer with no error, so a value older than the caller's expiry (or one that was never valid for this key) is served as a fresh success")
+						// the regular entry of this very key, stored meanwhile by a concurrent caller: what a call arriving now would
+						// get as an ordinary hit, bounded by the caller's expiry
+						sameKeyHit := rp.Results[1].IsConst("nil") && rp.Results[0].Has(func(x *core.Term) bool {
+							return x.Op == "call" && strings.HasSuffix(x.Name, ".Get") && len(x.Args) >= 2 && x.Args[len(x.Args)-1].String() == "param:key"
+						})
+						R.Check(sameKeyHit || !rp.Results[1].IsConst("nil") && fromCb(rp.Results[1], "1"), "R18.3", "cache.GetWithExpiration#miss-returns[failed]", rp.Ret.Pos(), fn, "a failed miss returns the callback's error", "after a failed callback the function returns ("+rp.Results[0].String()+", "+rp.Results[1].String()+"): the failure is replaced by a substitute answer with no error, so a value older than the caller's expiry (or one that was never valid for this key) is served as a fresh success")
 					}
 				}
 			}
